@@ -11,3 +11,70 @@ SPLIT = {"par2": [("_none", "not fa and not fb"), ("_a", "fa and not fb"), ("_ab
          "par_catch": [("_s%d_a" % s, "sib == %d and fa and not fb" % s) for s in range(3)],
          "map_items": [("_ok", "failing == -1"), ("_fail", "failing >= 0 and n >= 1")]}
 scn.register(globals(), {"C09"}, ["seq_chain", "seq_misc", "two_execs", "start_routes", "par2", "par_pass_task", "par_catch", "par_retry", "map_items"], SPLIT)
+
+
+# ---------------------------------------------------------------------------
+# One-step kernels (Engine A)
+# ---------------------------------------------------------------------------
+from vf.api import condition
+from vf import stubs
+from vf.stubs import pick
+from asl_workflow_engine import state_engine as se
+import vh_c16 as c16
+import vh_c10 as api
+
+TYPES = ["PassStateEntered", "PassStateExited", "TaskScheduled", "ExecutionSucceeded", "ExecutionFailed", "MapIterationStarted",
+         "NotAHistoryEvent", "LambdaFunctionScheduled"]
+
+
+@condition(timeout={"quick": 60, "thorough": 120}, functions=["StateEngine.update_execution_history (numbering from an arbitrary history length, EXPRESS, unknown event types)"])
+def append_numbering(n: int, ti: int, express: bool, later: int) -> bool:
+    """
+    requires: 0 <= n and 0 <= ti < 8 and 0 <= later <= 2
+    ensures: _
+    """
+    eng, log = stubs.make_engine({"StartAt": "P", "States": {"P": {"Type": "Succeed"}}}, "EXPRESS" if express else "STANDARD")
+    sm = eng.asl_store[stubs.SM_ARN]
+    hist = c16.SizedList(n)          # a history that already holds n (symbolic) events
+    eng.execution_history[stubs.EX_ARN] = hist
+    eng.executions[stubs.EX_ARN] = {"status": "RUNNING"}
+    t = pick(TYPES, ti)
+    later = pick([0, 1, 2], later)
+    stubs.CLOCK.now = 1_700_000_000.0 + later
+    eng.update_execution_history(sm, stubs.EX_ARN, t, {"k": 1})
+    stubs.CLOCK.now = 1_700_000_000.0
+    appended = list.__len__(hist)
+    if express or t == "NotAHistoryEvent":
+        return appended == 0
+    if appended != 1:
+        return False
+    e = list.__getitem__(hist, 0)
+    details = [k for k in e if k.endswith("Details")]
+    return (e["id"] == n + 1 and e["previousEventId"] == n and e["type"] == t and e["timestamp"] == 1_700_000_000.0 + later
+            and len(details) == 1 and e[details[0]] == {"k": 1})
+
+
+def _events(k):
+    return [{"id": i + 1, "previousEventId": i, "type": "T%d" % i, "timestamp": 1.0 + i} for i in range(k)]
+
+
+@condition(timeout={"quick": 120, "thorough": 300}, functions=["rest_api_asyncio / rest_api: aws_api_GetExecutionHistory (reverseOrder)"])
+def get_history_order(f: int, k: int, rev: int) -> bool:
+    """
+    requires: 0 <= f < 2 and 0 <= k <= 4 and 0 <= rev < 3
+    ensures: _
+    """
+    fe = api.FE[f]
+    fe.reset(True)
+    ex = "arn:aws:states:local:0123456789:execution:m:e1"
+    evs = _events(pick([0, 1, 2, 3, 4], k))
+    fe.engine.execution_history[ex] = list(evs)
+    members = {"executionArn": ex}
+    r = pick([None, False, True], rev)
+    if r is not None:
+        members["reverseOrder"] = r
+    v, code = fe.call("AWSStepFunctions.GetExecutionHistory", api.CT, stubs.FastJson.dumps(members).encode())
+    if not evs:
+        return code == 400 and v.get("__type") == "ExecutionDoesNotExist"
+    want = list(reversed(evs)) if r else evs
+    return code == 200 and v.get("events") == want and fe.engine.execution_history[ex] == evs
